@@ -39,11 +39,8 @@ class Ctx:
         return self.tier == "thorough"
 
 
-THRESHOLD_ALLOW = {
-    ("Ranking.__step_element_incomplete", "alea == 5"), ("Ranking.__step_element_incomplete", "alea == 4"),
-    ("Ranking.__step_element_complete", "alea == 4"),
-    ("ScoringScheme.__init__", "len(penalties[0]) != 6"), ("ScoringScheme.__init__", "len(penalties[1]) != 6"),
-}
+THRESHOLD_ALLOW = set()          # (function, comparison text) pairs confirmed by hand - none needed today
+SIZE_LIKE = ("len(", ".shape", ".size", "nb_", "_nb", "num_", "size", "count", "length", "n_elem", "nb")
 
 
 def anchor_files(prop: str):
@@ -113,7 +110,16 @@ def bound_guard(prop: str, proj: Project, explored: int = 3):
             if isinstance(n, ast.Compare):
                 parts = [n.left] + list(n.comparators)
                 consts = [value(x) for x in parts]
+                others = [src(x) for x, c in zip(parts, consts) if c is None]
                 consts = [c for c in consts if c is not None]
+                # equality tests are thresholds only when the other side is a size (a draw `alea == 5`, a status code
+                # or an opcode compared with == is a dispatch, not a bound); the 6 entries of a penalty vector are the
+                # format's constant
+                if all(isinstance(o, (ast.Eq, ast.NotEq)) for o in n.ops):
+                    if not any(any(k in o for k in SIZE_LIKE) for o in others):
+                        continue
+                    if f.module.relpath.endswith("scoringscheme.py") and set(consts) <= {2, 6}:
+                        continue
                 if any(abs(c) > explored for c in consts) and (f.short, src(n)) not in THRESHOLD_ALLOW:
                     raise AnalysisError(f"{f.loc(n)} {f.short}: comparison `{src(n)}` against a numeric threshold "
                                         f"({max(consts, key=abs)}) beyond the bounds this check explores ({explored}) - "
